@@ -41,6 +41,18 @@ def check(model: Model, rep: Report, tier: str):
         w5(model, rep)
     with rep.isolated():
         w6(model, rep)
+    from .common import order_kept_rule
+    with rep.isolated():
+        order_kept_rule(model, rep, "C18.W9", "TransformConstructor", "channel_indices",
+                        "TransformConstructor.channel_indices IS the row order of the drawing (identifier_to_pivot places an operation on row channel_indices.index(qubit)): "
+                        "the constructor keeps the list as given -- headers, channel bars and labels are laid out from the same requested order",
+                        "operations are drawn on rows in another order than the headers and channel bars (the requested order)")
+    from .c01 import r10 as _r10
+    from .common import share_rule as _share
+    with rep.isolated():
+        _share(rep, model, _r10, "C18.W8", "compact drawing works by replacing the one getter every global duration strategy reads through: the strategies look their own key up "
+               "through GlobalDurationRegistry.get_registry_at and the override installs a lookup in the temporary table (= C01.R10); a strategy that reads the "
+               "registry some other way is drawn with the file durations")
 
 
 def w6(model: Model, rep: Report):
